@@ -57,6 +57,13 @@ CLAIMED = {
                   "CSV, ARFF, LibSVM and Manik sources, label by index/header, c/r/m/inferred types (explicit type first), with and without take.",
             note="Trusted: Coq kernel, extraction+driver, harness. The readers (C12), LabelRows/feats (C13) and Reservoir (C09) are used as they are; labels are mapped to integer ranks for the model; with take the label set is the sample's; tensor actions are not covered.",
             technique="Coq proof over reward/action model + extracted-model correspondence + end-to-end recomputation oracle", design="§5 C14"),
+ "C15": dict(text="Coq theorems (C15/Props.v) over a model of SafeLearner's non-batched parser (has_kwargs, first_row, pred_format, _parse_pred) on a value universe with object identity (ints/strings interned, floats/sequences/dicts tagged): "
+                  "round trips parse(enc_F x) = x for (action,prob), bare action (scalars, vectors, sparse mappings), the dict-hinted forms, each with and without kwargs, and bare PMFs (the action is CobaRandom.choicew's draw, with that entry's probability, "
+                  "positive by C05) - under explicit guards on the action set; the guard on pair-valued actions is shown necessary by a refuting example. The extracted model is compared with SafeLearner on a systematic grid; "
+                  "a scripted recording learner is the oracle for batched row-/column-major calls, kwargs hand-back to learn and SequentialCB's seeding.",
+            note="Trusted: Coq kernel, extraction+driver, harness (identity bookkeeping: small ints and strings are treated as interned, other objects are identified by the harness). Batched parsing, batch_order's probing call and the per-row fallback are oracle-only. "
+                 "One open finding (column-major batch of bare PMFs over a single action).",
+            technique="Coq proof (case analysis over a value universe with identity) + extracted-model correspondence + scripted-learner oracle", design="§5 C15"),
 }
 NA_REASON = "check not built yet in this revision (planned, see DESIGN.md §8); no claim is made"
 def main():
